@@ -479,6 +479,45 @@ def unit_reactions(ctx):
     okp = all(snap[0][p] is tm.lift(gp.fields["rxn_ref_list"][q]) and snap[1][p] is tm.lift(gp.fields["rxn_noise_list"][q]) and
               all(snap[2][p][i] is tm.lift(kx.fields["rxn_cov_list"][q][i]) and snap[3][p][i] is tm.lift(kc.fields["rxn_cov_list"][q][i]) for i in range(M)) for q, p in enumerate(perm))
     ctx.holds("adding the reactions in a permuted order permutes labels, noises and covariance rows (entry r depends on reaction r only)", okp, "", fq)
+    # every value of the noise options is honoured, including 0 (a noiseless reaction) — on every path of the option parsing
+    it.call_method(gp, "reset_reactions", [])
+    zero = [(0, {"structs": ["A"], "counts": [cA], "noise": 0}), (0, {"structs": ["B"], "counts": [cB], "noise_factor": 0}),
+            (0, {"structs": ["C"], "counts": [cC], "noise": Q(0)}), (0, {"structs": ["A"], "counts": [cA], "noise": tm.var("sig1"), "weight": tm.var("w")})]
+    ps = all_paths(it, lambda: (it.call_method(gp, "reset_reactions", []), it.call_method(gp, "add_reactions", [zero]), list(gp.fields["rxn_noise_list"]))[2])
+    ok = [p for p in ps if p[0] == "return"]
+    ctx.holds("add_reactions with zero-valued noise options returns", len(ok) >= 1, "", fq)
+    for k, (o, v, pc, _) in enumerate(ok):
+        Hn = [tm.mk_lt(tm.ZERO, tm.var("w"))] + list(pc)
+        for r, want in enumerate([tm.ZERO, tm.ZERO, tm.ZERO, tm.var("sig1") / tm.mk_sqrt(tm.var("w"))]):
+            ctx.equal("add_reactions honours the noise option of reaction %d also when it is 0 (a noiseless reaction)#%d" % (r, k), Hn, v[r], want, fq, replay=replay_zero_noise())
+    it.call_method(gp, "reset_reactions", [])
+
+
+def replay_zero_noise():
+    def replay(wit):
+        from pyvc import native
+        native.install_shim()
+        from ciderpress.models.train import MOLGP
+
+        class K(object):
+            component = "x"
+            Nctrl = 2
+
+            def __init__(self):
+                self.rxn_cov_list = []
+                self.cov_dict = {"A": np.array([1.0, 2.0])}
+                self.base_dict = {"A": 0.3}
+        gp = MOLGP.__new__(MOLGP)
+        gp.kernels, gp.default_noise = [K()], 0.03
+        gp.exx_ref_dict, gp.ks_baseline_dict = {"A": -1.2}, {"A": 0.0}
+        gp.rxn_ref_list, gp.rxn_noise_list = [], []
+        gp.xkernels, gp.ckernels = gp.kernels, []
+        try:
+            gp.add_reactions([(0, {"structs": ["A"], "counts": [1.0], "noise": 0.0}), (0, {"structs": ["A"], "counts": [1.0], "noise_factor": 0.0})])
+        except Exception as e:
+            return {"reproduced": None, "error": "%s: %s" % (type(e).__name__, e)}
+        return {"reproduced": bool(any(x != 0 for x in gp.rxn_noise_list)), "noises_for_noise=0_and_noise_factor=0": [float(x) for x in gp.rxn_noise_list]}
+    return replay
 
 
 def replay_readd():
